@@ -324,6 +324,23 @@ func genScaler(r *gen.R, validOnly bool) (mon.OpReq, Expect, bool) {
 	}
 	o32, o64 := f32s(r, no)
 	s32, s64 := f32s(r, ns)
+	if dt == ref.F32 && r.Chance(0.12) {
+		// features with a large mean and a small spread (what a scaler is for): x close to its
+		// offset, so that forming x*scale and offset*scale separately would cancel
+		big := []float64{1e3, 1e5, 1e6, 3e4}[r.Intn(4)]
+		for i := range o32 {
+			o64[i] = float64(float32(big * (1 + 0.37*float64(i))))
+			o32[i] = float32(o64[i])
+		}
+		for i := range x.Bits {
+			o := o64[(i%c)%len(o64)]
+			x.Bits[i] = ref.EncF(ref.F32, o*(1+float64(r.Range(-40, 40))*1e-6))
+		}
+		for i := range s32 {
+			s64[i] = float64(float32(r.PickFloat(0.1, 0.3, -0.7, 1.7)))
+			s32[i] = float32(s64[i])
+		}
+	}
 	if r.Chance(0.15) { // attribute values for which a step "does nothing": offsets of (signed) zero, scales of one
 		for i := range o32 {
 			o32[i], o64[i] = 0, 0
